@@ -474,7 +474,7 @@ def remap_modes(tree, modes, cut):
         if a[0] == 'leaf':
             out.append(ms[0])
             return
-        if a[0] in ('neg', 'not'):
+        if a[0] in G.UNARY:
             rec(a[1], ms, b[1])
             return
         nl = G.nleaves(a[2])
@@ -557,7 +557,29 @@ def make_groups(ck, budget):
         if scope == 'decoy':
             # the decoy procedure only matters for leaves spelled through vals
             variants = [[('c', 'val') if (m[0] == 'c' and m[1] in ('dec', 'hex', 'kw') and rng.random() < 0.7) else m for m in v] for v in variants]
-        return {'family': fam, 'tree': tree, 'ctx': g.context(tree), 'var_scope': scope,
+        ctx = g.context(tree)
+        if fam == 'f6-cond':
+            ctx = rng.choice(('ifv', 'ifv', 'whilev'))
+        elif fam.startswith('f7-index/'):
+            c = g.arr_context(fam.split('/', 1)[1])
+            ctx = c if G.ctx_ok(tree, c) else ctx
+        elif fam == 'f5-eff':
+            ctx = rng.choice(('ifc', 'ifc', 'whilec', 'assign', 'actual', 'ret'))
+            # the constant side of the and/or stays a compile-time constant in most variants
+            lv = G.leaves(tree)
+            side = [G.nleaves(tree[2]), G.nleaves(tree[3])]
+            eff_left = G.has_eff(tree[2])
+            crange = range(side[0], side[0] + side[1]) if eff_left else range(0, side[0])
+            fixed = []
+            for v in variants:
+                v = list(v)
+                if rng.random() < 0.8:
+                    for i in crange:
+                        if v[i][0] == 'v':
+                            v[i] = g.spelling(lv[i])
+                fixed.append(v)
+            variants = fixed
+        return {'family': fam, 'tree': tree, 'ctx': ctx, 'var_scope': scope,
                 'var_init': 'built' if rng.random() < 0.15 else 'lit', 'style': rng.choice((0, 0, 2, 3)),
                 'variants': variants}
     out = []
@@ -573,7 +595,7 @@ def make_groups(ck, budget):
                 out.append(group(fam, tree, 3 if scale == 1 else 7))
             else:
                 rest.append((fam, tree))
-        elif fam.startswith('f1-') or fam == 'f4-wrap':
+        elif fam.startswith('f1-') or fam in ('f4-wrap', 'f5-eff', 'f6-cond') or fam.startswith('f7-index/'):
             out.append(group(fam, tree, 3))
         else:
             rest.append((fam, tree))
@@ -641,7 +663,7 @@ def main():
         groups = [{'family': 'replay', 'tree': tup(o['tree']), 'ctx': o.get('ctx', 'assign'), 'var_scope': o.get('var_scope', 'global'),
                    'var_init': o.get('var_init', 'lit'), 'style': o.get('style', 0), 'variants': [[tup(m) for m in o['modes']]]}]
     else:
-        budget = 2000 if not ck.thorough() else 120000
+        budget = 2600 if not ck.thorough() else 120000
         groups = corpus_groups() + make_groups(ck, budget)
         genconst_tie(ck, tools, scr)
         nonconst_val_probe(ck, tools, scr, mode.get('nonconstval'))
